@@ -19,7 +19,12 @@ RULE = ('2-10 caller greenlets invoking attempt() at seeded instants on a real '
         'refused, dropped mid-transaction, rejected transaction, unsolicited '
         '421 while the connection idles; non-trivial = >= 3 callers overlapped '
         'and a bounded pool or a fault was involved; distinct = distinct '
-        'event-log digest')
+        'event-log digest. One scenario in 16 drives the request deque on its '
+        'own: 2-6 greenlets apply append/appendleft/extend/extendleft/pop/'
+        'popleft/popleft-under-Timeout/remove/clear at seeded instants to a '
+        'real BlockingDeque and to a plain deque in completion order; after '
+        'every operation contents and returned items agree and the semaphore '
+        'counts the length; at rest nobody waits while items exist')
 COMPONENTS = {
     'real': ['slimta.relay.pool.RelayPool/RelayPoolClient',
              'slimta.util.deque.BlockingDeque',
@@ -35,12 +40,16 @@ PROBES = ['pool-size-1', 'pool-size-2', 'pool-size-3', 'pool-unbounded',
           'idle-reuse', 'request-waited-for-slot', 'connect-refused',
           'dropped-mid-transaction', 'rejected-transaction',
           'server-idle-421-requeue', 'rset-after-failure', 'kind:smtp',
-          'kind:lmtp', 'kind:http', 'pool-at-bound', 'garbage-reply']
+          'kind:lmtp', 'kind:http', 'pool-at-bound', 'garbage-reply',
+          'kind:deque', 'deque-pop-blocked', 'deque-timed-out',
+          'deque-consumer-left-waiting']
 STATES_MEASURE = 'distinct (kind, pool size, idle timeout?, number of callers, fault kinds) tuples'
 STEP_CAP = 600000
 
 
 def generate(seed, tier='quick'):
+    if seed % 16 == 0:
+        return _generate_deque(seed)
     rng = random.Random(seed)
     kind = rng.choice(['smtp', 'smtp', 'smtp', 'lmtp', 'http'])
     n = rng.randint(2, 10)
@@ -67,7 +76,191 @@ def generate(seed, tier='quick'):
     return scn
 
 
+def _generate_deque(seed):
+    """the request deque on its own: 2-6 greenlets applying every operation
+    of BlockingDeque at seeded instants (the pool uses append, appendleft and
+    popleft under an idle timeout; the others keep the same contract)"""
+    rng = random.Random(H(seed, 'deque'))
+    nxt = [0]
+
+    def item():
+        nxt[0] += 1
+        return nxt[0]
+    initial = [item() for _ in range(rng.choice([0, 0, 0, 1, 3]))]
+    actors = []
+    for a in range(rng.randint(2, 6)):
+        consumer = rng.random() < 0.5
+        ops = []
+        for _ in range(rng.randint(1, 7)):
+            d = rng.choice([0.0, 0.0, 0.0, 0.01, 0.5, 2.0])
+            if consumer:
+                op = rng.choice(['popleft', 'popleft', 'popleft', 'pop',
+                                 'timed', 'timed'])
+                arg = rng.choice([0.0, 0.01, 0.5, 2.0, 5.0]) \
+                    if op == 'timed' else None
+            else:
+                op = rng.choice(['append', 'append', 'append', 'appendleft',
+                                 'appendleft', 'extend', 'extendleft',
+                                 'remove', 'clear', 'popleft'])
+                if op in ('append', 'appendleft'):
+                    arg = item()
+                elif op in ('extend', 'extendleft'):
+                    arg = [item() for _ in range(rng.randint(0, 3))]
+                elif op == 'remove':
+                    arg = rng.randint(1, max(1, nxt[0]))
+                else:
+                    arg = None
+            ops.append([d, op, arg])
+        actors.append({'ops': ops})
+    return {'property': ID, 'harness': 'pool', 'seed': seed, 'kind': 'deque',
+            'sched_seed': rng.getrandbits(48), 'initial': initial,
+            'actors': actors}
+
+
+def _execute_deque(scn, debug=False):
+    from collections import deque as _deque
+    from gevent import Timeout
+    from slimta.util.deque import BlockingDeque
+    world = World(scn['sched_seed'], step_cap=STEP_CAP, debug=debug)
+    try:
+        world.probe('kind:deque')
+        q = BlockingDeque(scn['initial'])
+        model = _deque(scn['initial'])
+        violations = []
+        waiting = {}
+        nops = [0]
+        blocked_once = [False]
+
+        def bad(clause, msg, **det):
+            det.setdefault('kind', 'deque')
+            if not violations:
+                violations.append({'clause': clause, 'detail': det,
+                                   'msg': msg})
+
+        def agree(a, k, op, arg):
+            nops[0] += 1
+            if list(q) != list(model):
+                bad('C19/deque-model', 'after %s(%r) by actor %d (op %d) the '
+                    'deque holds %r, a plain deque given the same operations '
+                    'in the same order holds %r' % (op, arg, a, k, list(q),
+                                                    list(model)), op=op)
+            elif q.sema.counter != len(q):
+                bad('C19/deque-count', 'after %s(%r) by actor %d (op %d) the '
+                    'deque holds %d item(s) but its semaphore counts %d' % (
+                        op, arg, a, k, len(q), q.sema.counter), op=op)
+
+        def actor(a, ops):
+            for k, (d, op, arg) in enumerate(ops):
+                if d:
+                    gevent.sleep(d)
+                world.log('DQ', a, k, op, 'call')
+                exp = got = None
+                if op in ('pop', 'popleft', 'timed'):
+                    if not len(model):
+                        blocked_once[0] = True
+                    waiting[a] = (k, op)
+                    try:
+                        if op == 'timed':
+                            got = ('timeout',)
+                            with Timeout(arg, False):
+                                got = ('item', q.popleft())
+                        else:
+                            got = ('item', getattr(q, op)())
+                    except IndexError as e:
+                        got = ('raised', 'IndexError')
+                    finally:
+                        waiting.pop(a, None)
+                    if got[0] == 'timeout':
+                        world.probe('deque-timed-out')
+                        world.log('DQ', a, k, op, 'timeout')
+                        agree(a, k, op, arg)
+                        continue
+                    if got[0] == 'raised':
+                        bad('C19/deque-model', '%s() by actor %d on an empty '
+                            'deque raised %s instead of waiting for an item' %
+                            (op, a, got[1]), op=op)
+                        return
+                    if not len(model):
+                        bad('C19/deque-model', '%s() by actor %d returned %r '
+                            'although every item put so far had already been '
+                            'taken' % (op, a, got[1]), op=op)
+                        return
+                    exp = model.pop() if op == 'pop' else model.popleft()
+                    world.log('DQ', a, k, op, 'got', got[1])
+                    if exp != got[1]:
+                        bad('C19/deque-model', '%s() by actor %d returned %r, '
+                            'a plain deque given the same operations in the '
+                            'same order returns %r' % (op, a, got[1], exp),
+                            op=op)
+                        return
+                else:
+                    r1 = r2 = None
+                    try:
+                        getattr(q, op)(*([] if arg is None else [arg]))
+                    except ValueError:
+                        r1 = 'ValueError'
+                    try:
+                        getattr(model, op)(*([] if arg is None else [arg]))
+                    except ValueError:
+                        r2 = 'ValueError'
+                    world.log('DQ', a, k, op, r1 or 'done')
+                    if r1 != r2:
+                        bad('C19/deque-model', '%s(%r) by actor %d: %s, a '
+                            'plain deque: %s' % (op, arg, a, r1 or 'returned',
+                                                 r2 or 'returns'), op=op)
+                        return
+                agree(a, k, op, arg)
+                if violations:
+                    return
+        gs = [gevent.spawn(actor, a, x['ops'])
+              for a, x in enumerate(scn['actors'])]
+        horizon = 60.0 + sum(o[0] + (o[2] if o[1] == 'timed' else 0)
+                             for x in scn['actors'] for o in x['ops'])
+        try:
+            gevent.joinall(gs, timeout=horizon)
+            status = 'ok'
+        except gevent.hub.LoopExit:
+            # every actor finished or waits for an item nobody will put
+            status = 'cap' if world.loop.cap_hit else 'ok'
+        if status == 'ok' and not violations:
+            if waiting and len(q):
+                bad('C19/stranded', 'actor(s) %s still wait in %s although '
+                    'the deque holds %d item(s) (semaphore counts %d) and '
+                    'nothing else will run' % (
+                        sorted(waiting), sorted(set(v[1] for v in
+                                                    waiting.values())),
+                        len(q), q.sema.counter))
+            elif q.sema.counter != len(q):
+                bad('C19/deque-count', 'at rest the deque holds %d item(s) '
+                    'but its semaphore counts %d' % (len(q), q.sema.counter),
+                    op='rest')
+        if waiting:
+            world.probe('deque-consumer-left-waiting')
+        if blocked_once[0]:
+            world.probe('deque-pop-blocked')
+        for g in gs:
+            if not g.dead:
+                g.kill(block=False)
+        opset = sorted(set(o[1] for x in scn['actors'] for o in x['ops']))
+        return {
+            'violations': violations[:1], 'digest': world.digest(),
+            'nontrivial': blocked_once[0] and len(scn['actors']) >= 2,
+            'probes': dict(world.probes), 'faults': dict(world.faults),
+            'states': [hash(('deque', len(scn['actors']), tuple(opset)))],
+            'steps': world.loop.steps, 'sim_s': world.loop.elapsed(),
+            'inconclusive': status != 'ok',
+            'harness_errors': list(world.harness_errors),
+            'summary': {'kind': 'deque', 'actors': len(scn['actors']),
+                        'ops': nops[0], 'left': len(q),
+                        'waiting': sorted(waiting)},
+        }
+    finally:
+        world.close()
+
+
 def execute(scn, debug=False):
+    if scn['kind'] == 'deque':
+        return _execute_deque(scn, debug)
     world = World(scn['sched_seed'], step_cap=STEP_CAP, debug=debug)
     try:
         kind = scn['kind']
@@ -325,6 +518,26 @@ def _check_reset(c, bad):
 
 
 def shrink_candidates(scn, clause):
+    if scn['kind'] == 'deque':
+        acts = scn['actors']
+        if len(acts) > 1:
+            for i in range(len(acts)):
+                yield dict(scn, actors=acts[:i] + acts[i + 1:])
+        for i, x in enumerate(acts):
+            for k in range(len(x['ops'])):
+                if len(x['ops']) > 1:
+                    yield dict(scn, actors=acts[:i] + [
+                        {'ops': x['ops'][:k] + x['ops'][k + 1:]}] +
+                        acts[i + 1:])
+                if x['ops'][k][0]:
+                    o = list(x['ops'][k])
+                    o[0] = 0.0
+                    yield dict(scn, actors=acts[:i] + [
+                        {'ops': x['ops'][:k] + [o] + x['ops'][k + 1:]}] +
+                        acts[i + 1:])
+        if scn['initial']:
+            yield dict(scn, initial=[])
+        return
     cs = scn['callers']
     if len(cs) > 1:
         for i in range(len(cs)):
